@@ -42,6 +42,7 @@ EXTRA_PAIRS = {
     "dns_msg_size_get": [("hdr", "msgbuf_size", 1)],
     "dns_msg_validate": [("hdr", "msgbuf_size", 1)],
     # radius.h builders
+    "radius_pkt_attr_get_from_offset": [("pkt", "pkt_size", 1)],    # pkt_size is the local holding the (validated) header length
     "radius_pkt_attr_alloc_raw": [("pkt", "pkt_buf_size", 1)],
     "radius_pkt_attr_add_raw": [("pkt", "pkt_buf_size", 1)],
     "radius_pkt_attr_add": [("pkt", "pkt_buf_size", 1)],
@@ -83,13 +84,17 @@ def engine_version():
     return h.hexdigest()[:16]
 
 
+# sizes that are locals of the function (see absint: the local is the size symbol)
+LOCAL_SIZES = {"radius_pkt_attr_get_from_offset": ("pkt_size",)}
+
+
 def pairs_for(fn):
     ps = absint.guess_pairs(fn)
     extra = EXTRA_PAIRS.get(fn.name)
     if extra:
         names = {p["n"] for p in fn.params}
         have = {p[0] for p in extra}
-        ps = [p for p in ps if p[0] not in have] + [p for p in extra if p[0] in names and p[1] in names]
+        ps = [p for p in ps if p[0] not in have] + [p for p in extra if p[0] in names and (p[1] in names or p[1] in LOCAL_SIZES.get(fn.name, ()))]
     return ps
 
 
